@@ -144,11 +144,76 @@ class Rename(ast.NodeTransformer):
         return n
 
 
+def rename_one(count, seed):
+    """Single-variable renames: pick `count` (function, local variable) pairs at random, rename that one variable in that one
+    function, run all checks.  Measures how often an everyday rename detaches a rule."""
+    import random
+    rnd = random.Random(seed)
+    base = '/dev/shm' if os.path.isdir('/dev/shm') else None
+    cands = []
+    for root, _, files in os.walk('/repo/src/nfc'):
+        for fn in sorted(files):
+            if not fn.endswith('.py'):
+                continue
+            p = os.path.join(root, fn)
+            tree = ast.parse(open(p).read())
+            for f in ast.walk(tree):
+                if isinstance(f, ast.FunctionDef):
+                    params = {a.arg for a in f.args.args + f.args.kwonlyargs}
+                    nested = set()
+                    for c in ast.walk(f):
+                        if c is not f and isinstance(c, (ast.FunctionDef, ast.Lambda, ast.ListComp, ast.GeneratorExp, ast.SetComp, ast.DictComp)):
+                            nested.update(x.id for x in ast.walk(c) if isinstance(x, ast.Name))
+                    stores = sorted({x.id for x in ast.walk(f) if isinstance(x, ast.Name) and isinstance(x.ctx, ast.Store)} - params - nested)
+                    exc = {h.name for h in ast.walk(f) if isinstance(h, ast.ExceptHandler) and h.name}
+                    glob = {n for g in ast.walk(f) if isinstance(g, (ast.Global, ast.Nonlocal)) for n in g.names}
+                    for v in stores:
+                        if v not in exc and v not in glob:
+                            cands.append((p, f.name, f.lineno, v))
+    picks = rnd.sample(cands, count)
+    alarmed = 0
+    for p, fname, lineno, var in picks:
+        scratch = tempfile.mkdtemp(prefix='benign_r1_', dir=base)
+        try:
+            repo = os.path.join(scratch, 'repo')
+            shutil.copytree('/repo/src', os.path.join(repo, 'src'))
+            q = os.path.join(repo, os.path.relpath(p, '/repo'))
+            tree = ast.parse(open(q).read())
+            for f in ast.walk(tree):
+                if isinstance(f, ast.FunctionDef) and f.name == fname and f.lineno == lineno:
+                    for x in ast.walk(f):
+                        if isinstance(x, ast.Name) and x.id == var:
+                            x.id = var + '_renamed'
+            out = ast.unparse(tree)
+            compile(out, q, 'exec')
+            open(q, 'w').write(out + '\n')
+            evdir = os.path.join(scratch, 'ev')
+            os.makedirs(evdir)
+            env = dict(os.environ, NFCSA_REPO=repo, NFCSA_EVIDENCE_DIR=evdir)
+            bad = []
+            for prop in ALL:
+                r = subprocess.run([os.path.join(HERE, 'check.py'), prop], cwd=HERE, env=env, stdout=subprocess.PIPE, stderr=subprocess.STDOUT, text=True)
+                if r.returncode != 0:
+                    bad.append('%s(exit %d)' % (prop, r.returncode))
+            alarmed += bool(bad)
+            print('%s %s:%d %s -> %s' % (os.path.relpath(p, '/repo/src'), fname, lineno, var, ' '.join(bad) or 'no alarm'), flush=True)
+        finally:
+            shutil.rmtree(scratch, ignore_errors=True)
+    print('== rename1: %d single-variable renames, %d raised an alarm in at least one check' % (count, alarmed))
+
+
 TRANSFORMS = {'unparse': None, 'logging': Logging, 'logmsg': LogMsg, 'ifelse': IfElse, 'augassign': AugAssign, 'yoda': Yoda, 'rename': Rename}
 
 
 def main(argv):
     names = [a for a in argv[1:] if not a.startswith('--')] or list(TRANSFORMS)
+    for a in list(names):
+        if a.startswith('rename1'):
+            parts = a.split(':')
+            rename_one(int(parts[2]) if len(parts) > 2 else 30, int(parts[1]) if len(parts) > 1 else 1)
+            names.remove(a)
+    if not names and any(a.startswith('rename1') for a in argv[1:]):
+        return
     props = [a[2:].upper() for a in argv[1:] if a.startswith('--c')] or ALL
     base = '/dev/shm' if os.path.isdir('/dev/shm') else None
     for name in names:
